@@ -96,6 +96,13 @@ def main(argv):
 if __name__ == '__main__':
     try:
         rc = main(sys.argv[1:])
+        sys.stdout.flush()
+    except BrokenPipeError:
+        try:
+            sys.stdout = open(os.devnull, 'w')
+        except Exception:
+            pass
+        rc = 2
     except SystemExit:
         raise
     except Exception as e:  # pragma: no cover
